@@ -15,7 +15,7 @@ type txtGen struct {
 }
 
 var identPool = []string{"right", "owner", "resource", "operation", "user", "a", "b1", "has_role", "ns:sub", "x_y", "tenant", "allowed", "p"}
-var varPool = []string{"x", "y", "0", "1", "var_1", "f", "who"}
+var varPool = []string{"x", "y", "0", "1", "var_1", "f", "who", "query", "read", "ip_address", "nonce", "hostname"}
 var strTxtPool = []string{"", "a", "file1", "hello world", "read", "/a/b.txt", "x;y", "tab\there", "ünï", "check if", "$x", "1 < 2", "50%off", "%s%d%v", "100%", "(a)", "[1, 2]", "{x}", "<-", "!", "#1025", "allow if true", "a,b", "a.length()", "2021-01-01T00:00:00Z", "true", "-1", "a||b", "// c", "/* c */"}
 var strPrintable = []string{"", "a", "file1", "hello world", "read", "/a/b.txt", "x;y", "check if", "$x", "1 < 2", "50%off", "%s%d%v", "100%", "(a)", "[1, 2]", "{x}", "<-", "!", "#1025", "allow if true", "a,b", "a.length()", "2021-01-01T00:00:00Z", "true", "-1", "a||b", "// c", "/* c */"}
 
